@@ -80,6 +80,8 @@ def check_node(node, ref_val, seed_memo, what: str) -> Failure | None:
         return Failure("il-out-of-bounds", f"{what}: {e}", kind)
     except RefUnsupported as e:
         return Failure("il-uninterpretable", f"{what}: {e}", kind)
+    except Exception as e:  # noqa: BLE001 (a broken lambda is a finding)
+        return Failure("il-broken", f"{what}: {type(e).__name__}: {e}", kind)
     msg = compare_values(np.asarray(got), ref_val)
     if msg:
         return Failure("il-value", f"{what}: {msg}", kind)
